@@ -126,6 +126,10 @@ def grid(tier):
                     for axis in (False, True):
                         yield {"kind": "export", "owner": owner, "fmt": fmt, "complex": cplx, "two_d": two_d,
                                "axis": axis, "n": 7, "m": 3, "ints": ints}
+                        if owner == "DFunction" and two_d and not axis and fmt in ("npy", "npz", "mat"):
+                            # a genuinely two-dimensional array with a single row (binary formats keep the shape)
+                            yield {"kind": "export", "owner": owner, "fmt": fmt, "complex": cplx, "two_d": True,
+                                   "axis": False, "n": 1, "m": 5, "ints": ints}
                         if owner == "DFunction":
                             # the same data on other overall scales
                             for mag in (1e-8, 1e-16, 1e-24, 1e12):
